@@ -655,6 +655,12 @@ def check_overlay(ctx: Ctx, wk, hk, align, valign, mins, margins, size):
     for e in topw.log:
         if e[0] in ("negative", "bad-dim"):
             V("no-negative", f"top widget was handed size {e[2]} in {e[1]}")
+    # a packed height is the height of the child at the width it is then rendered at
+    for rs_ in sorted(set(topw.rows_log)):
+        if any((not isinstance(d, int)) or d < 0 for d in rs_):
+            V("no-negative", f"top widget was asked for its rows at size {rs_}")
+        elif hk[0] == "pack" and wk[0] != "pack" and rs_ != (cw,):
+            V("child-size", f"top widget was asked for its rows at {rs_} but is rendered {cw} columns wide (margins {lrtb} in {size})", "rows-asked-at")
     got = [rr[1] for rr in topw.renders()]
     if ok and got != [exp]:
         V("child-size", f"top widget render sizes {got}, expected [{exp}]")
